@@ -94,7 +94,13 @@ pub fn raw_events(c: &SeqCase, k: Option<u64>) -> Result<Vec<Ev>, String> {
             None => None,
         };
         let mut r = Recorder::new();
-        algorithms::diff_deadline(alg_of(c.alg), &mut r, &c.old[..], c.old_r(), &c.new[..], c.new_r(), dl).unwrap();
+        // full-range calls without a deadline rotate through the three entry points that are documented
+        // to agree: diff_deadline(.., None), diff_slices and diff
+        match (k, c.is_full(), (c.old.len() + c.new.len()) % 3) {
+            (None, true, 1) => algorithms::diff_slices(alg_of(c.alg), &mut r, &c.old[..], &c.new[..]).unwrap(),
+            (None, true, 2) => algorithms::diff(alg_of(c.alg), &mut r, &c.old[..], c.old_r(), &c.new[..], c.new_r()).unwrap(),
+            _ => algorithms::diff_deadline(alg_of(c.alg), &mut r, &c.old[..], c.old_r(), &c.new[..], c.new_r(), dl).unwrap(),
+        }
         similar::verif::clock::install(None);
         r.events
     })
